@@ -61,6 +61,9 @@ def run_property(prop, tier, seed, only=None):
                 print(f"CHECKER-ERROR {prop}: canary {c['name']} was NOT refuted - engine unsound or vacuous")
                 return 3
     os.makedirs(core.REPLAYS, exist_ok=True)
+    for old in os.listdir(core.REPLAYS):  # replay files are rewritten by every run of this property
+        if old.startswith(prop + "-"):
+            os.unlink(os.path.join(core.REPLAYS, old))
     for o in ded.obligations:
         if o.status == "discharged":
             continue
